@@ -81,7 +81,7 @@ func (o *sessionTracker) RemoteLogin(rul common.RemoteUserLogin) error {
 	var found bool
 	var writeErr error
 	o.sessIDsToUsers.Iterate(func(asi string, u *user) bool {
-		if u.srcPID == rul.PID {
+		if !u.hasRUL && u.srcPID == rul.PID {
 			if debugLogger != nil {
 				debugLogger.With(
 					"auditSessionID", asi,
@@ -96,7 +96,12 @@ func (o *sessionTracker) RemoteLogin(rul common.RemoteUserLogin) error {
 			u.setRemoteUserLoginInfo(rul)
 
 			found = true
+			sessionEnded := u.cachedSessionEnd()
 			writeErr = u.writeAndClearCache(o.eventWriter)
+			if sessionEnded && writeErr == nil {
+				// The session ended before its login arrived.
+				o.sessIDsToUsers.DeleteUnsafe(asi)
+			}
 			// stop iteration
 			return false
 		}
@@ -345,6 +350,18 @@ type user struct {
 func (o *user) setRemoteUserLoginInfo(login common.RemoteUserLogin) {
 	o.hasRUL = true
 	o.login = login
+}
+
+// cachedSessionEnd returns true if the cached events contain
+// the event that ends the audit session.
+func (o *user) cachedSessionEnd() bool {
+	for _, e := range o.cached {
+		if e.Type == auparse.AUDIT_CRED_DISP {
+			return true
+		}
+	}
+
+	return false
 }
 
 // hasRemoteUserLoginInfo checks if there is a remote user login present for the user.
